@@ -5,7 +5,13 @@ use std::panic::{catch_unwind, AssertUnwindSafe};
 /// splitmix64: tiny, deterministic, good enough for test-input generation.
 pub struct Rng(pub u64);
 impl Rng {
-  pub fn new(seed: u64) -> Rng { Rng(seed.wrapping_mul(0x9E3779B97F4A7C15).wrapping_add(0x1234_5678_9ABC_DEF1)) }
+  /// the seed is scrambled (murmur3 finalizer) so that consecutive seeds do not give shifted copies of one stream
+  pub fn new(seed: u64) -> Rng {
+    let mut z = seed ^ 0x1234_5678_9ABC_DEF1;
+    z = (z ^ (z >> 33)).wrapping_mul(0xFF51AFD7ED558CCD);
+    z = (z ^ (z >> 33)).wrapping_mul(0xC4CEB9FE1A85EC53);
+    Rng(z ^ (z >> 33))
+  }
   pub fn next(&mut self) -> u64 {
     self.0 = self.0.wrapping_add(0x9E3779B97F4A7C15);
     let mut z = self.0;
